@@ -200,7 +200,13 @@ cfg_not_miri! {
 
                 pub(crate) fn new_with(options: &Builder) -> Self {
                     Self {
-                        inner: CQueue::new(options.cqueue_num_buckets, options.cqueue_bucket_timespan),
+                        // The queue's clock must start at the start time of the runtime,
+                        // else events before the start time would be accepted.
+                        inner: CQueue::new_at(
+                            options.cqueue_num_buckets,
+                            options.cqueue_bucket_timespan,
+                            *options.start_time,
+                        ),
                     }
                 }
 
